@@ -88,6 +88,10 @@ CHECKS = {
             "contracts on the real determine_optimal_int_type, make_distance_matrix_from_adjacency_matrix (connected and disconnected branch, SciPy's shortest_path / connected_components / unique as dependency contracts) and gromov_hausdorff (pair, collection, rejection); a call-graph obligation (find_lb reaches no RNG call); run-time sweep over containers, sparsity, symmetry, relabelings, collections and disconnected graphs",
             "Mixed: proved - the disconnected branch warns and returns the square, finite restriction of the distance matrix to a largest component on both axes and never raises; the integer type holds the maximum; pair / collection dispatch, N < 2 rejected, symmetric zero-diagonal matrices whose entries are the pairwise estimates; lower bounds are RNG-free. Format coercion (list / dense / CSR, triu / symmetric) is SciPy's: bounded sweep.",
             "D10 shortest_path, D19 unique / tril_indices, D20 connected_components (as assumed contracts, swept at run time); generator, models, contracts trusted"),
+    "C19": ("other",
+            "frame (ownership) obligations generated by the VC engine for a cross-section of the functions under contract in ten modules (every in-place write on every path must target a buffer not reachable from a parameter), dtype-store obligations, AST scans (no global/nonlocal state, RNG only in the mGH upper bound); byte-level comparison of arguments and repetition/interleaving over ~35 public entry points; list/int/float agreement",
+            "Mixed: proved for the functions under contract - no path stores into an argument's buffer (np.array/np.copy/astype(copy=True)/mask indexing yield fresh buffers, views alias), no float is stored into an integer buffer inherited from the caller, no module state, randomness only through NumPy's global generator in the mGH upper bound. Everything else (all remaining public entry points, repeatability, interleaving, representation independence) is the bounded byte-level stand-in. Known finding: the deprecated PersImage caches `specs`.",
+            "A5 view/copy classification of the NumPy model; functions outside the contracts only sampled; generator, models, contracts trusted"),
 }
 
 NOT_YET = "check not built yet in this session (planned per DESIGN.md section 5)"
